@@ -1877,7 +1877,7 @@ func TestVerifC07(t *testing.T) {
 	}
 	// ---- random histories
 	rnd := vfNewRand(out.Seed)
-	n := out.Scale(120, 1200)
+	n := out.Scale(120, 500)
 	for i := 0; i < n && !c07Stuck; i++ {
 		r := rnd.Fork(uint64(i))
 		mem := uint(r.Range(1, 8))
